@@ -238,7 +238,7 @@ pub fn run_threads(plan: &Plan, image: &[u8], verbose: bool) -> Report {
                 };
             }
         } else {
-            if let Out::Done(d) = &o {
+            if let (Out::Done(d), false) = (&o, matches!(op, Op::DebugFmt)) {
                 dg.u64(*d);
             }
             memo.insert(op.clone(), o);
